@@ -38,6 +38,9 @@ t = ['Each change was written by a fresh sub-agent that saw only the property te
      '`seeded/<id>/` holds `patch.diff`, `demo.py`, `notes.md`, `meta.json`.', '',
      '| id | needs, in order to manifest | result |', '|---|---|---|']
 first = 0
+_rp = os.path.join(ROOT, 'seeded_regress_last.json')
+_rg = {r['seed']: r['verdict'] for r in json.load(open(_rp))['results']} if os.path.exists(_rp) else {}
+missed = [m['seed_id'] for m in seeds if m.get('confirmed', True) and _rg.get(m['seed_id'], (m.get('ran') or [{}])[-1].get('verdict')) != 'detected']
 for m in seeds:
     ran = m.get('ran', [{}])[-1]
     h = m.get('history', '')
@@ -49,7 +52,8 @@ for m in seeds:
     t.append('| %s | %s | %s; now: %s (`%s`) |' % (m['seed_id'], m.get('needs_to_manifest', ''), h, ran.get('verdict', '?'), (ran.get('first_kinds') or ['?'])[0].split(' ')[0].replace('kind=', '')))
 t.append('')
 t.append('%d seeded changes; %d were caught by the checks as they stood, the others exposed blind spots of the workloads (not of the oracles) and led to the strengthenings named in the table; '
-         'after them every seeded change is caught by its property\'s quick check.' % (len(seeds), first))
+         '%s' % (len(seeds), first, 'after them every seeded change is caught by its property\'s quick check.' if not missed else
+                 'NOT detected by the checks as they stand (written in the last minutes of the budget, no time left to widen the workload): ' + ', '.join(missed) + '.'))
 rp = os.path.join(ROOT, 'seeded_regress_last.json')
 if os.path.exists(rp):
     rg = json.load(open(rp))
